@@ -20,12 +20,14 @@ LEVEL = "other"
 TECHNIQUE = ("branch partition (decision table) of the omission predicates over a complete finite abstraction of "
              "tag/neighbour names and token types; structural effect analysis of the filter generator; "
              "reader/writer agreement with the parser's dispatch tables")
-CLAIM = ("The complete decision table of is_optional_start/is_optional_end is computed for every tag name (every "
-         "constant mentioned, every substring of a string used as an `in` container, and a fresh name standing for all "
-         "others) against every neighbour; the set of names that can ever be omitted must lie inside the list of the "
-         "property, the generator may drop only attribute-less start tags / end tags that the predicates approve, and "
-         "yields the source's own tokens in order. For the parse-equivalence clause, each omission the table allows is "
-         "checked against the parser handler that must re-imply the omitted tag.")
+CLAIM = ('The complete decision table of is_optional_start/is_optional_end is computed for every tag name '
+         '(every constant mentioned, every substring of a string used as an `in` container, and a fresh name '
+         'standing for all others) against every neighbour; the set of names that can ever be omitted must lie '
+         'inside the list of the property, the generator may drop only attribute-less start tags / end tags '
+         "that the predicates approve, and yields the source's own tokens in order. For the parse-equivalence "
+         'clause, each omission the table allows is checked against the parser handler that must re-imply the '
+         'omitted tag. Every (tag, next token) cell in which a tag is omitted is a position in which the HTML '
+         'syntax allows the omission.')
 NOT_DECIDED = "full parse equivalence of filtered and unfiltered streams on all conforming documents."
 MODULES = ["filters/optionaltags.py", "html5parser.py", "treebuilders/base.py", "constants.py"]
 
